@@ -110,6 +110,14 @@ def step (st : St) (args : List String) : St × String × String :=
       dup ({ s := s' }, match findSub s' (decStr id) with
         | some sub => statusOf sub
         | none => "?")
+  | "subw" :: id :: acl :: req :: phase :: caArgs =>
+      -- the injected cache operation's observation is evaluated on the cache it runs against
+      let run (c : Cache.State) : Cache.State × List Event := let r := CA.exec c caArgs; (r.1, r.2.1)
+      let r := Sub.subscribeInject s (decStr id) (parseAcl acl) (parseReq req) (phase == "start") run
+      let obs := match findSub r.1 (decStr id) with
+        | some sub => statusOf sub
+        | none => "?"
+      dup ({ s := r.1 }, obs ++ " ran=" ++ (if r.2 then "1" else "0"))
   | ["drain", id] => let r := drainObs s (decStr id); dup ({ s := r.1 }, r.2)
   | [op, id] =>
       if (findSub s (decStr id)).isNone then dup (st, "no-such-subscriber")
